@@ -163,6 +163,11 @@ BATTERY = [
     'FIND(?from.name) WHERE { ?to CONCEPT {name: "S4"} (?from, "mentions"{1,3}, ?to) } {coord} ORDER BY ?from.name',
     'FIND(?from.name, ?to.name) WHERE { (?from, "mentions"{1,3}, ?to) } {coord} ORDER BY ?from.name, ?to.name',
     'FIND(?from.name, ?to.name) WHERE { ?p PROPOSITION (?from, "mentions", ?to) } {coord} ORDER BY ?from.name',
+    # a projected belief (fixed evaluation instant, so that only the coordinate decides the answer)
+    'FIND(?b) WHERE { ?s CONCEPT {name: "Bob"} ?o CONCEPT {name: "dark"} ?p PROPOSITION (?s, "prefers", ?o) ?b BELIEF (?p) } '
+    '{coord} FOR TIME "2027-01-01T00:00:00Z"',
+    'FIND(?s.name, ?b.status) WHERE { ?p PROPOSITION (?s, "prefers", ?o) ?b BELIEF (?p) } {coord} FOR TIME "2027-01-01T00:00:00Z" '
+    'ORDER BY ?s.name',
     'FIND(?c.name, ?st) WHERE { ?c CONCEPT {type: "Person", state: ?st} } {coord} ORDER BY ?c.name',
     'FIND(?a.confidence) WHERE { ?a ASSERTION {stance: "support", mode: "stated"} FILTER(?a.confidence > 0.5) } {coord} ORDER BY ?a.confidence',
 ]
